@@ -2,6 +2,7 @@ import json, sys
 pid = sys.argv[1]
 n = sys.argv[2] if len(sys.argv) > 2 else '1'
 avoid = sys.argv[3] if len(sys.argv) > 3 else ''
+extra = sys.argv[4] if len(sys.argv) > 4 else ''
 for l in open('/verif/properties.jsonl'):
     p = json.loads(l)
     if p['id'] == pid:
@@ -22,6 +23,8 @@ Your task: make ONE small, realistic change to the library source (not the tests
  (b) the breakage needs something SPECIFIC to manifest - a particular size/length boundary, an unusual but valid input, a multi-step sequence of operations, a particular combination of options, or two cooperating sites that each look fine alone - NOT something ordinary use would expose at once. Think of the kind of off-by-one, wrong-comparison, stale-cache, missed-branch or boundary mistakes a maintainer could plausibly make in a refactoring or "optimisation".
 
 {("Other engineers have already produced mutations in: " + ", ".join("src/dliswriter/" + a for a in avoid.split(",")) + " - choose a DIFFERENT file where you can, and in any case a clearly different function and mechanism, so that the mutations are unrelated. Prefer a mechanism that a single ordinary build-and-write would not expose: state carried between calls or between writes of the same object, interaction of two features, a rarely used but documented input type or route, or a boundary value of a length/count/reference field.") if avoid else ""}
+
+{extra}
 
 Deliver, inside {wt}:
  1. the change itself, left UNCOMMITTED in the worktree (I will collect it with `git diff`);
